@@ -31,6 +31,8 @@ struct Shape {
 
 trait DynBuf {
     fn parts(&self) -> (usize, usize);
+    /// `Buf::as_slice` as (pointer, length); `None` when the call panics.
+    fn as_slice_pair(&self) -> Option<(usize, usize)>;
     fn len(&self) -> usize;
     fn is_empty(&self) -> bool;
 }
@@ -38,6 +40,13 @@ impl<T: Buf> DynBuf for T {
     fn parts(&self) -> (usize, usize) {
         let (p, l) = unsafe { Buf::parts(self) };
         (p as usize, l as usize)
+    }
+    fn as_slice_pair(&self) -> Option<(usize, usize)> {
+        std::panic::catch_unwind(std::panic::AssertUnwindSafe(|| {
+            let s = Buf::as_slice(self);
+            (s.as_ptr() as usize, s.len())
+        }))
+        .ok()
     }
     fn len(&self) -> usize {
         Buf::len(self)
@@ -553,6 +562,19 @@ fn one_case(r: &mut Rng) -> Case {
                 o.pair(&shape, p);
                 o.obs.push(b.len() as i128);
                 o.obs.push(b.is_empty() as i128);
+                match b.as_slice_pair() {
+                    Some(sp) => {
+                        o.pair(&shape, sp);
+                        if sp != p {
+                            o.fail(format!("as_slice() shows (base+{}, {}) but parts() (base+{}, {})", sp.0 as i128 - shape.base as i128, sp.1, p.0 as i128 - shape.base as i128, p.1));
+                        }
+                    }
+                    None => {
+                        o.obs.push(-1);
+                        o.obs.push(-1);
+                        o.fail(format!("as_slice() panics although len() reports {} visible bytes", b.len()));
+                    }
+                }
                 if p.1 != exp || b.len() != exp || b.is_empty() != (exp == 0) {
                     o.fail(format!(
                         "Buf reports parts.len={} len()={} is_empty()={} but {} bytes are visible",
@@ -821,6 +843,13 @@ pub fn run(args: &Args) -> i32 {
         o.pair(&shape, p);
         o.obs.push(b.len() as i128);
         o.obs.push(b.is_empty() as i128);
+        match b.as_slice_pair() {
+            Some(sp) => o.pair(&shape, sp),
+            None => {
+                o.obs.extend([-1, -1]);
+                o.fail(format!("limit {limit}: as_slice() panics"));
+            }
+        }
         o.obs.push(shape.len as i128);
         if p.1 != len || b.len() != len {
             o.fail(format!("limit {limit}: parts.len={} len()={} but {len} bytes are visible", p.1, b.len()));
